@@ -192,3 +192,18 @@ CHECKS["C19"] = dict(
           "web {OAuth off,on} x {static token unset,set} x {no, wrong, right header} x {no cookie, garbage, forged, valid future member / non-member / org error, valid past member} x "
           "{/run, /async, /immediate, /cached/<id>} = 336 requests; each observed decision is compared with the model's decision functions through the regenerated guard tables. "
           "non-trivial: credentials are configured"))
+
+CHECKS["C16"] = dict(
+    stages=[dict(sub="c16", quick=1500, thorough=40000, shards=1)],
+    assumptions=["each input is executed in a worker process against the real sql.Parse, sql.TableFor, DB.Query (planner.Plan) and Iterate on a DB with data; "
+                 "a worker that dies or hangs (20s watchdog) while executing an input is recorded as crash/hang for that input and restarted at the next one",
+                 "panics on the caller's goroutine are recovered by the worker and recorded as 'panic'",
+                 "insert payloads: after each payload a valid point is inserted and the valid points' _points total must equal the number inserted",
+                 "table definitions used for the payload tests are legitimate (dimension functions applied as documented); the hostile part is the payload"],
+    trusted=["the external SQL parser (getlantern/sqlparser) and goexpr are exercised, not modelled: 'all byte strings' is covered by generation for them and by proof only for zenodb's own dispatch given their outputs"],
+    what_fails="a client-supplied SQL string or insert payload made zenodb panic, crash or stall (or a later valid point was not ingested)",
+    rule=("12 valid and 120 hand-written hostile statements (non-SELECT statements, wrong arities and argument types for every function family, unknown tables/fields/"
+          "functions, bad durations/time ranges/limits, malformed subqueries), token-level mutations of them (delete/insert/replace/truncate/swap, cut inside a token) and "
+          "structured random queries over the function vocabulary; 27 insert payloads over the Go value universe (nil/empty/ill-typed values, empty arrays, nil/ill-typed "
+          "dims, 200 dims, raw truncated/garbage byte maps) and 11 legitimate function-using table definitions fed 35 hostile dim/value combinations each. "
+          "non-trivial: everything but the 12 valid statements; distinct = distinct input"))
